@@ -1084,3 +1084,256 @@ Proof.
   rewrite <- Nat.negb_odd. destruct (Nat.odd (rid y)) eqn:Oy; [|reflexivity]. exfalso.
   pose proof (G1 y Hy Oy) as G. unfold gone, gone_i in G. rewrite has_dc_info in Ty. rewrite Ty, orb_true_r in G. discriminate.
 Qed.
+
+(* ------------------------------------------------------------------ *)
+(* reduce = the marked nodes and their ancestors                       *)
+(* ------------------------------------------------------------------ *)
+(* pre-order with depths: determines the shape of a forest *)
+Fixpoint pre_d (d : nat) (t : rt) : list (nat * rt) :=
+  match t with T _ _ ch => (d, t) :: flat_map (pre_d (S d)) ch end.
+Definition obs_d (p : nat * rt) : nat * nat * info := (fst p, rid (snd p), rinfo (snd p)).
+(* x is marked or has a marked descendant, i.e. x is a marked node or an ancestor of one *)
+Definition keepb (x : rt) : bool := existsb pred_dc (pre x).
+
+Lemma existsb_flat_map {X Y} (p : Y -> bool) (F : X -> list Y) l :
+  existsb p (flat_map F l) = existsb (fun x => existsb p (F x)) l.
+Proof. induction l as [|x l IH]; [reflexivity|]. cbn. now rewrite existsb_app, IH. Qed.
+
+Lemma visit_snd : forall n, snd (visit n) = keepb n.
+Proof.
+  induction n as [id i ch IH] using rt_ind'. cbn [visit snd]. unfold keepb. cbn [pre existsb]. f_equal.
+  rewrite existsb_flat_map, existsb_map_comp'. apply existsb_ext_in'. intros c Hc.
+  rewrite Forall_forall in IH. now apply IH.
+Qed.
+
+Lemma visit_fst_unfold n : fst (visit n) = T (rid n) (rinfo n) (reduce_f (rch n)).
+Proof. now destruct n. Qed.
+
+Lemma pre_d_snd : forall t d, map snd (pre_d d t) = pre t.
+Proof.
+  induction t as [id i ch IH] using rt_ind'. intros d. cbn [pre_d pre map snd]. f_equal.
+  induction ch as [|c ch IHc]; [reflexivity|]. inversion IH as [|? ? Hc Hch]; subst.
+  cbn [flat_map]. now rewrite map_app, Hc, IHc.
+Qed.
+
+Lemma keepb_false_sub n y : keepb n = false -> In y (pre n) -> keepb y = false.
+Proof.
+  unfold keepb. intros H Hy. destruct (pre_segment n y Hy) as [a [b E]]. rewrite E, !existsb_app in H.
+  apply orb_false_iff in H. destruct H as [_ H]. apply orb_false_iff in H. apply H.
+Qed.
+
+Lemma reduce_node_forest d f :
+  Forall (fun n => forall d, map obs_d (flat_map (pre_d d) (reduce_f [n])) = map obs_d (filter (fun p => keepb (snd p)) (pre_d d n))) f ->
+  map obs_d (flat_map (pre_d d) (reduce_f f)) = map obs_d (filter (fun p => keepb (snd p)) (flat_map (pre_d d) f)).
+Proof.
+  induction f as [|c f IHf]; intros H; [reflexivity|]. inversion H as [|? ? Hc Hf]; subst.
+  specialize (Hc d). unfold reduce_f in *. cbn [map filter flat_map] in *.
+  rewrite filter_app, map_app, <- (IHf Hf), <- Hc.
+  destruct (snd (visit c)); cbn [map flat_map]; now rewrite ?app_nil_r, ?map_app.
+Qed.
+
+Theorem reduce_exact : forall f d,
+  map obs_d (flat_map (pre_d d) (reduce_f f)) = map obs_d (filter (fun p => keepb (snd p)) (flat_map (pre_d d) f)).
+Proof.
+  assert (N : forall n d, map obs_d (flat_map (pre_d d) (reduce_f [n])) =
+                          map obs_d (filter (fun p => keepb (snd p)) (pre_d d n))).
+  { induction n as [id i ch IH] using rt_ind'. intros d.
+    unfold reduce_f at 1. cbn [map filter]. rewrite visit_snd.
+    destruct (keepb (T id i ch)) eqn:K.
+    - cbn [map flat_map]. rewrite app_nil_r, visit_fst_unfold. cbn [rid rinfo rch pre_d filter snd]. rewrite K.
+      cbn [map]. f_equal. now apply reduce_node_forest.
+    - cbn [map flat_map]. rewrite filter_none; [reflexivity|].
+      intros p Hp. apply (keepb_false_sub _ _ K). rewrite <- (pre_d_snd _ d). now apply in_map. }
+  intros f d. apply reduce_node_forest. apply Forall_forall. intros n _. apply N.
+Qed.
+
+(* kept nodes keep identity, payload (marks included) and children order; a
+   corollary without depths *)
+Corollary reduce_nodes f :
+  map (fun x => (rid x, rinfo x)) (pre_f (reduce_f f)) = map (fun x => (rid x, rinfo x)) (filter keepb (pre_f f)).
+Proof.
+  pose proof (reduce_exact f 0) as H.
+  apply (f_equal (map (fun t : nat * nat * info => (snd (fst t), snd t)))) in H.
+  rewrite !map_map in H. cbn in H.
+  assert (E : forall g, flat_map pre g = map snd (flat_map (pre_d 0) g)).
+  { induction g as [|c g IHg]; [reflexivity|]. cbn [flat_map]. now rewrite map_app, pre_d_snd, IHg. }
+  rewrite !E, map_map.
+  etransitivity; [exact H|]. clear. generalize (flat_map (pre_d 0) f). intros l.
+  induction l as [|p l IH]; [reflexivity|]. cbn. destruct (keepb (snd p)); cbn; now rewrite IH.
+Qed.
+
+(* ------------------------------------------------------------------ *)
+(* identical inputs: the result is an unmarked copy of t0              *)
+(* ------------------------------------------------------------------ *)
+Inductive same : rt -> rt -> Prop :=
+| same_T a b : key a = key b -> rdid a = rdid b -> Forall2 same (rch a) (rch b) -> same a b.
+
+Fixpoint plain0 (t : rt) : rt := match t with T id i ch => T (id0 id) (res_info i []) (map plain0 ch) end.
+
+Lemma mapi_from_map {X Y} (f : nat -> X -> Y) (g : X -> Y) l : forall i,
+  (forall k x, nth_error l k = Some x -> f (i + k) x = g x) -> mapi_from f i l = map g l.
+Proof.
+  induction l as [|x r IH]; intros i H; cbn; [reflexivity|]. f_equal.
+  - specialize (H 0 x eq_refl). now rewrite Nat.add_0_r in H.
+  - apply IH. intros k y Hk. specialize (H (S k) y Hk). now replace (S i + k) with (i + S k) by lia.
+Qed.
+
+Lemma Forall2_nth {X Y} (R : X -> Y -> Prop) l l' : Forall2 R l l' ->
+  forall k x, nth_error l k = Some x -> exists y, nth_error l' k = Some y /\ R x y.
+Proof.
+  induction 1 as [|a b l l' Hab H IH]; intros [|k] x Hk; cbn in Hk; try discriminate.
+  - injection Hk as <-. exists b. auto.
+  - now apply IH.
+Qed.
+
+Lemma same_keys l l' : Forall2 same l l' -> keys l = keys l' /\ map rdid l = map rdid l'.
+Proof.
+  induction 1 as [|a b l l' Hab H [IH1 IH2]]; [auto|]. inversion Hab as [? ? K D _]; subst. cbn. now rewrite K, D, IH1, IH2.
+Qed.
+
+Lemma sib_unique_sub f c : sib_unique f -> In c f -> sib_unique (rch c).
+Proof.
+  intros [U V] Hc. split; [apply V; now apply in_pre_f_top|]. intros x Hx. apply V. eapply pre_f_sub; eauto.
+Qed.
+
+Definition identP ordered (c0 : rt) : Prop := forall c1, sib_unique (rch c0) -> same c0 c1 ->
+  compare ordered (rch c0) (rch c1) = (map plain0 (rch c0), false).
+
+Lemma identical_list ordered ch0 : Forall (identP ordered) ch0 -> forall ch1, sib_unique ch0 -> Forall2 same ch0 ch1 ->
+  compare ordered ch0 ch1 = (map plain0 ch0, false).
+Proof.
+  intros IH ch1 SU HS. destruct (same_keys _ _ HS) as [EK ED].
+  assert (N1 : NoDup (keys ch1)) by (rewrite <- EK; apply SU).
+  assert (M : mapi_from (cmp ordered ch1) 0 ch0 = map (fun c => (plain0 c, false)) ch0).
+  { apply mapi_from_map. intros k c0 Hk. cbn [Nat.add].
+    destruct (Forall2_nth _ _ _ HS k c0 Hk) as [c1 [Hk1 S01]].
+    pose proof S01 as S01'. inversion S01' as [? ? K D HCh]; subst.
+    destruct (find_child_unique ch1 c1 N1 (nth_error_In _ _ Hk1)) as [j [F Hj]].
+    destruct (NoDup_keys_nth ch1 j k c1 c1 N1 Hj Hk1 eq_refl) as [-> _].
+    rewrite cmp_unfold, K, F. cbv zeta.
+    rewrite Forall_forall in IH. rewrite (IH c0 (nth_error_In _ _ Hk) c1); auto.
+    - cbn [fst snd]. unfold order_meta. rewrite Nat.eqb_refl. cbn. destruct c0 as [id i ch]. reflexivity.
+    - eapply sib_unique_sub; eauto. eapply nth_error_In; eauto. }
+  unfold compare. rewrite M. f_equal.
+  - rewrite map_map. cbn [fst]. replace (added_part ch0 ch1) with (@nil rt); [now rewrite app_nil_r|].
+    symmetry. unfold added_part. rewrite filter_none; [reflexivity|].
+    intros c1 H1. apply negb_false_iff. destruct (in_dids (rdid c1) ch0) eqn:E; [reflexivity|].
+    exfalso. apply in_dids_false in E. apply E. rewrite ED. now apply in_map.
+  - rewrite existsb_map_comp'. now apply existsb_false.
+Qed.
+
+Lemma identical_all ordered : forall c0, identP ordered c0.
+Proof.
+  induction c0 as [id i ch IH] using rt_ind'. intros c1 SU HS. inversion HS as [? ? _ _ HCh]; subst.
+  cbn [rch] in *. now apply identical_list.
+Qed.
+
+Lemma plain0_meta : forall t, Forall (fun x => rmeta x = []) (pre (plain0 t)).
+Proof.
+  induction t as [id i ch IH] using rt_ind'. cbn [plain0 pre]. constructor; [reflexivity|].
+  apply Forall_flat_map. intros c' Hc'. apply in_map_iff in Hc'. destruct Hc' as [c [<- Hc]].
+  rewrite Forall_forall in IH. now apply IH.
+Qed.
+
+Lemma reclass_step_no_removed f a : (forall x, In x (pre_f f) -> has_dc x REMOVED = false) -> reclass_step f a = f.
+Proof.
+  intros H. unfold reclass_step. destruct (Nat.odd a); [|reflexivity]. destruct (find_node a f); [|reflexivity].
+  rewrite existsb_false; [reflexivity|]. intros x Hx. rewrite (H x Hx). apply andb_false_r.
+Qed.
+
+Lemma reclass_no_removed order f : (forall x, In x (pre_f f) -> has_dc x REMOVED = false) -> reclass order f = f.
+Proof.
+  intros H. unfold reclass. induction order as [|a order IH]; [reflexivity|]. cbn [fold_left].
+  now rewrite reclass_step_no_removed.
+Qed.
+
+Lemma reduce_unmarked f : (forall x, In x (pre_f f) -> pred_dc x = false) -> reduce_f f = [].
+Proof.
+  intros H. unfold reduce_f. rewrite filter_none; [reflexivity|].
+  intros p Hp. apply in_map_iff in Hp. destruct Hp as [c [<- Hc]]. rewrite visit_snd. unfold keepb.
+  apply existsb_false. intros y Hy. apply H. apply in_flat_map. eauto.
+Qed.
+
+Theorem identical_no_marks order ordered t0 t1 : sib_unique t0 -> Forall2 same t0 t1 ->
+  diff_with order ordered false t0 t1 = ([], map plain0 t0) /\
+  diff_with order ordered true t0 t1 = ([], []).
+Proof.
+  intros SU HS. unfold diff_with.
+  rewrite (identical_list ordered t0 (proj2 (Forall_forall _ _) (fun c _ => identical_all ordered c)) t1 SU HS).
+  cbn [fst snd root_meta].
+  assert (M : forall x, In x (pre_f (map plain0 t0)) -> rmeta x = []).
+  { intros x Hx. apply in_flat_map in Hx. destruct Hx as [c' [Hc' Hx]]. apply in_map_iff in Hc'.
+    destruct Hc' as [c [<- Hc]]. pose proof (plain0_meta c) as H. rewrite Forall_forall in H. auto. }
+  rewrite reclass_no_removed.
+  - split; [reflexivity|]. f_equal. apply reduce_unmarked. intros x Hx. unfold pred_dc, mark. now rewrite (M x Hx).
+  - intros x Hx. unfold has_dc, mark. now rewrite (M x Hx).
+Qed.
+
+(* ------------------------------------------------------------------ *)
+(* the literal branch structure of diff.py computes the same function  *)
+(* ------------------------------------------------------------------ *)
+Lemma cmp_lit_eq ordered : forall c0 ch1 i0, cmp_lit ordered ch1 i0 c0 = cmp ordered ch1 i0 c0.
+Proof.
+  induction c0 as [n0 inf0 ch0 IH] using rt_ind'. intros ch1 i0. cbn [cmp_lit cmp].
+  destruct (find_child ch1 (i_eqc inf0)) as [[i1 c1]|]; [|reflexivity].
+  assert (E : mapi_from (cmp_lit ordered (rch c1)) 0 ch0 = mapi_from (cmp ordered (rch c1)) 0 ch0).
+  { apply mapi_from_ext. intros k x Hk. rewrite Forall_forall in IH. apply IH. eapply nth_error_In; eauto. }
+  destruct ch0 as [|c ch0].
+  - destruct (rch c1) as [|d ch1'] eqn:R; [|now rewrite E].
+    cbn. now rewrite app_nil_r.
+  - now rewrite E.
+Qed.
+
+Lemma compare_lit_eq ordered ch0 ch1 : compare_lit ordered ch0 ch1 = compare ordered ch0 ch1.
+Proof.
+  unfold compare_lit, compare.
+  assert (E : mapi_from (cmp_lit ordered ch1) 0 ch0 = mapi_from (cmp ordered ch1) 0 ch0).
+  { apply mapi_from_ext. intros k x _. apply cmp_lit_eq. }
+  now rewrite E.
+Qed.
+
+Theorem diff_tree_lit_eq hints ordered reduce t0 t1 :
+  diff_tree_lit hints ordered reduce t0 t1 = diff_tree hints ordered reduce t0 t1.
+Proof. unfold diff_tree_lit, diff_tree, diff_gen. now rewrite compare_lit_eq. Qed.
+
+(* what the correspondence runs is diff_with for one particular order *)
+Theorem diff_tree_is_diff_with hints ordered reduce t0 t1 r :
+  diff_tree hints ordered reduce t0 t1 = Some r ->
+  r = diff_with (eff_order hints (fst (compare ordered t0 t1))) ordered reduce t0 t1.
+Proof.
+  unfold diff_tree, diff_gen, diff_with. destruct (sibs_ok_f (fst (compare ordered t0 t1))); [|discriminate].
+  now intros [= <-].
+Qed.
+
+(* ------------------------------------------------------------------ *)
+(* the executable domain test is sound                                 *)
+(* ------------------------------------------------------------------ *)
+Lemma nodupb_sound l : nodupb l = true -> NoDup l.
+Proof.
+  induction l as [|x l IH]; cbn; intros H; [constructor|]. apply andb_true_iff in H. destruct H as [H1 H2].
+  constructor; [|auto]. intros Hi. apply negb_true_iff in H1.
+  assert (existsb (Z.eqb x) l = true); [|congruence]. apply existsb_exists. exists x. split; [exact Hi|apply Z.eqb_refl].
+Qed.
+
+Lemma dom_t_sound : forall c0 ch1, dom_t c0 ch1 = true -> forall c1, In c1 ch1 ->
+  (key c0 = key c1 <-> rdid c0 = rdid c1) /\ (key c0 = key c1 -> dom (rch c0) (rch c1)).
+Proof.
+  induction c0 as [n0 i0 ch0 IH] using rt_ind'. intros ch1 H c1 H1. cbn [dom_t] in H.
+  rewrite forallb_forall in H. specialize (H c1 H1). apply andb_true_iff in H. destruct H as [HA HB].
+  unfold key, rdid. cbn [rinfo rch]. split.
+  - apply Bool.eqb_prop in HA. rewrite <- Z.eqb_eq, <- did_eqb_eq. fold (rdid c1). rewrite HA. tauto.
+  - intros K. apply Z.eqb_eq in K. rewrite K in HB. apply andb_true_iff in HB. destruct HB as [HB H3].
+    apply andb_true_iff in HB. destruct HB as [N0 N1]. rewrite forallb_forall in H3. rewrite Forall_forall in IH.
+    constructor; [now apply nodupb_sound|now apply nodupb_sound| |].
+    + intros a b Ha Hb. apply (IH a Ha (rch c1) (H3 a Ha) b Hb).
+    + intros a b Ha Hb. apply (IH a Ha (rch c1) (H3 a Ha) b Hb).
+Qed.
+
+Theorem dom_b_sound ch0 ch1 : dom_b ch0 ch1 = true -> dom ch0 ch1.
+Proof.
+  unfold dom_b. intros H. apply andb_true_iff in H. destruct H as [H H3]. apply andb_true_iff in H. destruct H as [N0 N1].
+  rewrite forallb_forall in H3.
+  constructor; [now apply nodupb_sound|now apply nodupb_sound| |].
+  - intros a b Ha Hb. apply (dom_t_sound a ch1 (H3 a Ha) b Hb).
+  - intros a b Ha Hb. apply (dom_t_sound a ch1 (H3 a Ha) b Hb).
+Qed.
